@@ -9,13 +9,15 @@ package stats
 // Both callbacks of Stats honour the parser's callback protocol: on an error the record is nil and must not
 // be touched; the error stops the count and is handed back.
 func Stats$1
-  props C08 C09 C10
+  props C08 C09 C10 C07
   refines parser.StopOnErr
   modifies lastLogDate, err, firstLogDate, countLog
+  ensures @counts [C07] countLog == old(countLog) + (if err == nil then 1 else 0)
 func Stats$2
-  props C08 C09 C10
+  props C08 C09 C10 C07
   refines parser.StopOnErr
   modifies countDb
+  ensures @counts [C07] countDb == old(countDb) + (if err == nil then 1 else 0)
 
 func NewStatsReporter returns (sr)
   props C17 C08
@@ -28,15 +30,18 @@ func (StatsReporter).Process returns (err)
   ensures err == nil
 
 func (StatsReporter).Flush returns (err)
-  props C17 C08
+  props C17 C08 C07
   requires @args sr.output != nil && sr.stats != nil
   modifies ghost(bufSticky, sinkFailed, sinkPend, prLen, prSink, prArg, prArgs)
+  let B := prLen
   ensures @sink [C17] BufStep(sr.output)
+  // the figures printed are those of the StatsData record: file names, record counts (C07)
+  ensures @figures [C07] prLen == B + 8 && PrintedStr(B, 0, sr.stats.DbFileName) && PrintedInt(B + 1, 0, sr.stats.DbRecordsCount) && PrintedStr(B + 3, 0, sr.stats.LogFileName) && PrintedInt(B + 4, 0, sr.stats.LogRecordsCount)
   ensures @reports-loss [C17] (err != nil) == bufSticky[sr.output] && (err == nil ==> sinkPend[bufSink[sr.output]] == 0)
 
 // stats: both files are read to their end with a stop-on-error callback, then the figures are printed
 func Stats returns (err)
-  props C08 C09 C10 C17
+  props C08 C09 C10 C17 C07
   requires @sink sc.ReporterConfig.Output != nil && !typeis(sc.ReporterConfig.Output, "*bufio.Writer") && !typeis(sc.ReporterConfig.Output, "*encoding/csv.Writer")
   calluse ParseFileCallback#1 stats1
   calluse ParseFileCallback#2 stats2
@@ -47,4 +52,6 @@ func Stats returns (err)
   ensures @log-read [C09 C10] err == nil ==> FileNameOf(logf) == logFileName && !RdFailed(logf) && (forall i int :: {RdLine(logf, i)} 0 <= i && i < RdN(logf) ==> !Malformed(logf, i, cc))
   ensures @book-read [C09 C10] err == nil ==> FileNameOf(lastOpen) == dbFileName && !RdFailed(lastOpen) && (forall i int :: {RdLine(lastOpen, i)} 0 <= i && i < RdN(lastOpen) ==> !Malformed(lastOpen, i, cc))
   ensures @reports-loss [C17] err == nil ==> (sinkFailed[out] ==> old(sinkFailed[out])) && sinkPend[out] == 0
+  // C07: the two record counts printed are the numbers of headings of the log and of the book
+  ensures @counts [C07] err == nil ==> prLen == old(prLen) + 8 && PrintedInt(old(prLen) + 4, 0, HeadCount(logf, RdN(logf), cc)) && PrintedInt(old(prLen) + 1, 0, HeadCount(lastOpen, RdN(lastOpen), cc))
 @*/
